@@ -79,3 +79,29 @@ void h_insert(void) {
   CHECK(g_add_key[1] == rep + k2o && g_add_klen[1] == k2n && g_add_vlen[1] == 0, "delete: key slice of the record, empty value");
   CANARY();
 }
+
+/* ---- bat.insert.frame: ldb_batch_insert_into is REENTRANT.  It runs with the DB mutex released, and two databases of one
+ * process (or a recovery next to a writer of another database) may be inside it at the same time.  Frame: it writes to the
+ * memtable it was handed (here: the recording model's ghost) and to nothing else - in particular to no static or global. */
+const ldb_batch_t *g_frame_batch;
+int c_batch_insert_into(const ldb_batch_t *batch, ldb_memtable_t *table)
+__CPROVER_requires(batch == g_frame_batch && table == &g_table && g_adds == 0)
+__CPROVER_assigns(g_adds, __CPROVER_object_whole(g_add_seq), __CPROVER_object_whole(g_add_type), __CPROVER_object_whole(g_add_key), __CPROVER_object_whole(g_add_klen),
+                  __CPROVER_object_whole(g_add_val), __CPROVER_object_whole(g_add_vlen))
+__CPROVER_ensures(__CPROVER_return_value == LDB_OK ==> g_adds == 2)
+;
+void h_insert_frame(void) {
+  uint8_t rep[12 + 1 + 1 + 3 + 1 + 3 + 1 + 1 + 3];
+  ldb_batch_t b;
+  uint8_t k1n = nondet_u64() & 3, v1n = nondet_u64() & 3, k2n = nondet_u64() & 3;
+  uint64_t seq = nondet_u64();
+  size_t p = 12;
+  __CPROVER_assume(seq < (1ull << 56) - 2);
+  ldb_fixed64_encode(rep, seq); ldb_fixed32_encode(rep + 8, 2);
+  rep[p++] = 1; rep[p++] = k1n; p += k1n; rep[p++] = v1n; p += v1n;
+  rep[p++] = 0; rep[p++] = k2n; p += k2n;
+  b.rep.data = rep; b.rep.size = p; b.rep.alloc = sizeof(rep);
+  g_adds = 0; g_frame_batch = &b;
+  (void)ldb_batch_insert_into(&b, &g_table);
+  CANARY();
+}
